@@ -328,8 +328,8 @@ func (vc *VC) finish(top *Frame) {
 	}
 	sort.Strings(gks)
 	for _, k := range gks {
-		if k == "nextR" || mods[k] {
-			continue
+		if k == "nextR" || mods[k] || strings.HasPrefix(k, "mon.") {
+			continue // monitor states are functions of the traces: no frame obligation of their own
 		}
 		ent, ok := vc.entry.ghost[k]
 		if !ok || st.ghost[k] == ent {
@@ -361,16 +361,39 @@ func (vc *VC) prelude() (string, error) {
 	seen := map[string]bool{}
 	var order []string
 	provided := map[string]bool{}
+	texts := map[string]string{}
+	opaqueSet := map[string]bool{}
+	for u := range vc.uses {
+		if strings.HasPrefix(u, "opaque:") {
+			opaqueSet[strings.TrimPrefix(u, "opaque:")] = true
+		}
+	}
 	var visit func(use string) error
 	visit = func(use string) error {
 		if seen[use] {
 			return nil
 		}
 		seen[use] = true
+		opaque := false
+		if strings.HasPrefix(use, "opaque:") {
+			opaque = true
+			use = strings.TrimPrefix(use, "opaque:")
+			if seen[use] {
+				return nil
+			}
+			seen[use] = true
+		}
+		if provided[use] {
+			return nil
+		}
 		text, err := vc.eng.specText(use, vc.mode)
 		if err != nil {
 			// a library that exists only for the other reading is simply not part of this VC
 			return nil
+		}
+		if opaque || opaqueSet[use] {
+			// opaque view: every function of this library is declared, not defined
+			texts[use] = opaqueView(text)
 		}
 		// "; provides: X": several files may provide the same interface (defined vs. opaque view); the first one wins
 		for _, l := range strings.Split(text, "\n") {
@@ -382,6 +405,7 @@ func (vc *VC) prelude() (string, error) {
 				}
 			}
 		}
+		provided[use] = true
 		for _, l := range strings.Split(text, "\n") {
 			if strings.HasPrefix(strings.TrimSpace(l), "; provides:") {
 				for _, p := range strings.Fields(strings.TrimPrefix(strings.TrimSpace(l), "; provides:")) {
@@ -420,6 +444,9 @@ func (vc *VC) prelude() (string, error) {
 	}
 	for _, u := range order {
 		text, _ := vc.eng.specText(u, vc.mode)
+		if t, ok := texts[u]; ok {
+			text = t
+		}
 		b.WriteString("; ---- spec library: " + u + "\n")
 		b.WriteString(text)
 		b.WriteString("\n")
@@ -472,4 +499,38 @@ func (o *Obl) smtText(withModel bool) (string, error) {
 		b.WriteString("(get-model)\n")
 	}
 	return b.String(), nil
+}
+
+// opaqueView turns every define-fun with parameters into a declare-fun (same signature, no body).
+// Proving a goal with uninterpreted functions is valid for every interpretation, in particular the defined one.
+func opaqueView(text string) string {
+	sx, err := parseSexps(text)
+	if err != nil {
+		return text
+	}
+	var b strings.Builder
+	for _, l := range strings.Split(text, "\n") {
+		t := strings.TrimSpace(l)
+		if strings.HasPrefix(t, "; include:") || strings.HasPrefix(t, "; provides:") || strings.HasPrefix(t, "; requires-") || strings.HasPrefix(t, "; monitor") {
+			b.WriteString(l + "\n")
+		}
+	}
+	b.WriteString("; (opaque view: definitions replaced by declarations)\n")
+	for _, s := range sx {
+		if s.Head() == "define-fun" && len(s.List) == 5 && s.List[2].IsL && len(s.List[2].List) > 0 {
+			var sorts []string
+			for _, p := range s.List[2].List {
+				if p.IsL && len(p.List) == 2 {
+					sorts = append(sorts, p.List[1].String())
+				}
+			}
+			fmt.Fprintf(&b, "(declare-fun %s (%s) %s)\n", s.List[1].String(), strings.Join(sorts, " "), s.List[3].String())
+			continue
+		}
+		if s.Head() == "assert" {
+			continue // axioms about the (now uninterpreted) functions are dropped: weaker, still sound
+		}
+		b.WriteString(s.String() + "\n")
+	}
+	return b.String()
 }
